@@ -506,7 +506,8 @@ HofK(m0, h) ==         \* the call returned m0.rv
         m1 == IF h.lz /\ h.emit /\ got
               THEN [m0 EXCEPT !.out = @ \o (IF h.acc # <<>> THEN ZSep ELSE <<>>) \o (IF nested THEN <<>> ELSE Repr(item))]
               ELSE m0
-    IN IF h.lz /\ got /\ ~nested /\ ~Printable(item) THEN Undef(m0, "lazy-item-not-plain")
+    IN IF h.op = "filter" /\ ZIn(r) THEN Undef(m0, "truth-of-lazy-value")      \* (bool of a lazy list produces its first item)
+       ELSE IF h.lz /\ got /\ ~nested /\ ~Printable(item) THEN Undef(m0, "lazy-item-not-plain")
        ELSE IF nested /\ h.emit
        THEN \* LazyList.output writes such an item with vy_print(item, "") -- its own bracket, its items as they are produced
             PrintVal(m1, item, <<>>, <<[back EXCEPT !.acc = Append(h.acc, item)]>>)
@@ -748,7 +749,9 @@ ZSafeElems == {"pop", "dup", "swap", "print", "printkeep", "printnonl", "wrap", 
    top k entries alone: a reference below them does not matter to it. *)
 TopHasZ(m, k) == \E j \in 1..Len(Stk(m)) : j > Len(Stk(m)) - k /\ ZIn(Stk(m)[j])
 ElemZSafe(m, name) ==
-    \/ name \in ZSafeElems
+    \* (the copy of a LIST is a lazy list over the same items: written item by item, not as the text of a list -- a list
+    \*  that holds a reference is not copied in the model)
+    \/ name \in ZSafeElems /\ ~(name = "dup" /\ Stk(m) # <<>> /\ IsL(Last(Stk(m))) /\ ZIn(Last(Stk(m))))
     \/ name \notin {"call", "revstack", "over", "garrcopy"} /\ ~TopHasZ(m, ElemArity(name))
 ZSafeItem(m, it) ==
     CASE it.k = "elem" -> ElemZSafe(m, it.name)
